@@ -682,6 +682,42 @@ func concWorkerMain(specPath string) int {
 	T := len(spec.Templates)
 	res := &concResult{}
 
+	// Phase 0 — COLD START: the very first thing this process does with the library is to hand a configured engine,
+	// which has not parsed anything yet, to all goroutines, which start by parsing (anything built lazily on the first
+	// parse - per engine or per process - is built under contention). The results are compared with Phase 1's below.
+	type coldRes struct {
+		g, k int
+		got  string
+	}
+	var cold []coldRes
+	{
+		e1 := concEngineWith(spec, false)
+		b1 := realise()
+		var wg1 sync.WaitGroup
+		var mu1 sync.Mutex
+		start1 := make(chan struct{})
+		for g := 0; g < spec.N; g++ {
+			wg1.Add(1)
+			go func(g int) {
+				defer wg1.Done()
+				<-start1
+				for i := 0; i < 4; i++ {
+					k := (g*7 + i) % T
+					t := spec.Templates[k]
+					if strings.Contains(t.Src, "include") {
+						continue // cached include sources are not registered on this engine
+					}
+					got := concDo(e1, spec, t, nil, "", opParseRender, b1)
+					mu1.Lock()
+					cold = append(cold, coldRes{g, k, got})
+					mu1.Unlock()
+				}
+			}(g)
+		}
+		close(start1)
+		wg1.Wait()
+	}
+
 	// Phase 1 — ALONE: every (template, entry point) on a fresh engine with fresh bindings.
 	want := make([][]string, T)
 	for k, t := range spec.Templates {
@@ -702,45 +738,19 @@ func concWorkerMain(specPath string) int {
 		}
 	}
 
+	for _, c := range cold {
+		if c.got != want[c.k][opParseRender] {
+			res.NMismatch++
+			if len(res.Mismatches) < 10 {
+				res.Mismatches = append(res.Mismatches, concMismatch{c.g, "first ParseTemplate+Render (cold start)", spec.Templates[c.k].Src, c.got, want[c.k][opParseRender]})
+			}
+		}
+	}
+
 	if os.Getenv("VERIF_CONC_DEBUG") != "" {
 		for k := range want {
 			res.Want = append(res.Want, spec.Templates[k].Src+"  =>  "+want[k][opRenderShared])
 		}
-	}
-
-	// Phase 1b — FIRST PARSES, CONCURRENTLY: an engine that has been configured but has not parsed anything yet; every
-	// goroutine starts by parsing (anything built lazily on the first parse is built under contention).
-	{
-		e1 := concEngineWith(spec, false)
-		b1 := realise()
-		var wg1 sync.WaitGroup
-		var mu1 sync.Mutex
-		start1 := make(chan struct{})
-		for g := 0; g < spec.N; g++ {
-			wg1.Add(1)
-			go func(g int) {
-				defer wg1.Done()
-				<-start1
-				for i := 0; i < 4; i++ {
-					k := (g*7 + i) % T
-					t := spec.Templates[k]
-					if strings.Contains(t.Src, "include") {
-						continue // cached include sources are not registered on this engine
-					}
-					got := concDo(e1, spec, t, nil, "", opParseRender, b1)
-					if got != want[k][opParseRender] {
-						mu1.Lock()
-						res.NMismatch++
-						if len(res.Mismatches) < 10 {
-							res.Mismatches = append(res.Mismatches, concMismatch{g, "first ParseTemplate+Render", t.Src, got, want[k][opParseRender]})
-						}
-						mu1.Unlock()
-					}
-				}
-			}(g)
-		}
-		close(start1)
-		wg1.Wait()
 	}
 
 	// Phase 2 — CONCURRENT: one engine, one set of parsed templates, one set of bindings.
